@@ -373,6 +373,37 @@ class Gen:
         r.shuffle(ms)
         return {"macros": ms, "input": inp}
 
+    def variadic_count(self):
+        """argument counting / picking with variadic macros (unnamed `...` and named `rest...`), zero, one and
+        many variable arguments; always evaluated at least twice over one parsed tree"""
+        r = self.r
+        via = lambda: r.choice(["define", "define", "define", "D"])
+        k = r.choice(["NARGS", "NARGS", "PICK", "REST", "FIRST"])
+        ms = []
+        if k == "NARGS":
+            ms.append({"name": "NARGS_", "params": ["a", "b", "c", "n", "..."], "body": "n", "via": via()})
+            ms.append({"name": "NARGS", "params": ["..."], "body": "NARGS_(__VA_ARGS__,3,2,1,0)", "via": via()})
+            inp = "NARGS(" + ",".join(r.choice(["p", "q", "1", "(1,2)"]) for _ in range(r.choice([1, 2, 3]))) + ")"
+        elif k == "PICK":
+            ms.append({"name": "PICK", "params": ["x", "rest..."], "body": r.choice(["x + SECOND(rest, 0, 0)", "SECOND(rest, 7, 8) x", "SECOND(x, rest, 9)"]), "via": via()})
+            ms.append({"name": "SECOND", "params": ["a", "b", "..."], "body": "b", "via": via()})
+            inp = "PICK(" + ",".join(r.choice(["1", "2", "p", "q"]) for _ in range(r.choice([1, 2, 3, 4]))) + ")"
+        elif k == "REST":
+            ms.append({"name": "REST", "params": ["x", r.choice(["...", "rest..."])], "body": None, "via": via()})
+            ms[-1]["body"] = "[" + ("__VA_ARGS__" if ms[-1]["params"][-1] == "..." else "rest") + "] x"
+            inp = "REST(" + ",".join(r.choice(["1", "2", "p", ""]) for _ in range(r.choice([1, 2, 3]))) + ")"
+        else:
+            ms.append({"name": "FIRST", "params": ["..."], "body": "FIRST_(__VA_ARGS__, 0)", "via": via()})
+            ms.append({"name": "FIRST_", "params": ["a", "..."], "body": r.choice(["a", "a #__VA_ARGS__"]), "via": via()})
+            inp = "FIRST(" + ",".join(r.choice(["1", "2", "p"]) for _ in range(r.choice([0, 1, 2, 3]))) + ")"
+        if r.random() < 0.3:
+            inp += " + " + inp
+        r.shuffle(ms)
+        c = {"macros": ms, "input": inp}
+        if any(not is_D(m) for m in ms):
+            c["history"] = r.choice([2, 2, 3])
+        return c
+
     def malformed(self):
         r = self.r
         c = self.case()
@@ -433,7 +464,9 @@ class C03(Check):
             "self-references (own name / name of an enclosing macro not followed by '(' in a replacement list) passed as "
             "argument to a macro that applies its parameter (m(2), m a, ID(x)(...)); a stream of painted names used as "
             "## operands through two- and three-level paste helpers (results: macro names, numbers, unknown names); "
-            "an exhaustive block of "
+            "variadic counting macros (NARGS, PICK(x, rest...)); HISTORY: 30 % of the cases with a function-like #define "
+            "(60 % when variadic, all of the counting stream) evaluate the SAME parsed DefineNodes and expression tokens 2-3 "
+            "times for fresh Platforms and must give the same answer each time; an exhaustive block of "
             "all tables {A:=b1; F(x):=b2} with bodies of <= 2 tokens; a malformed stream.  A case is non-trivial when the "
             "expansion differs from the input AND a function-like macro, a # / ## operator or a nested replacement took part")
     assumptions = ["token lists are produced by the real Lexer.tokenize on ASCII text (lexing itself is C17's subject)",
@@ -480,6 +513,13 @@ class C03(Check):
             out.append(c)
             self._selfref.append(c)
         self.hist["selfref_applied_block"] = n_sr
+        n_vc = 200 if quick else 4000
+        self._vcount = []
+        for _ in range(n_vc):   # variadic counting, evaluated twice over one parsed tree
+            c = g.variadic_count()
+            out.append(c)
+            self._vcount.append(c)
+        self.hist["variadic_count_block"] = n_vc
         n_pp = 300 if quick else 5000
         self._ppaste = []
         for _ in range(n_pp):   # a painted name as operand of ##
@@ -491,6 +531,20 @@ class C03(Check):
         for _ in range(n_op):
             out.append(g.operand_only())
         self.hist["operand_only_block"] = n_op
+        # HISTORY dimension: cases with a function-like `#define` are evaluated twice (or three times) over
+        # ONE parsed tree: 30 % of them, 60 % when the macro is variadic (decided by the case PRNG)
+        n_hist = 0
+        for c in out:
+            if "history" in c:
+                continue
+            fl = [m for m in c["macros"] if m["params"] is not None and not is_D(m)]
+            if not fl:
+                continue
+            va = any(m["params"] and m["params"][-1].endswith("...") for m in fl)
+            if self.rng.random() < (0.6 if va else 0.3):
+                c["history"] = self.rng.choice([2, 2, 3])
+                n_hist += 1
+        self.hist["history_cases_evaluated_twice_or_more"] = n_hist
         good = []
         for c in out:
             try:
@@ -538,9 +592,32 @@ class C03(Check):
         return enc(self.prepare(case))
 
     # ---- implementation ----
-    def platform(self, case):
+    def parse_defines(self, case):
+        """the `#define` lines of a case parsed ONCE (the DefineNodes of the cached source tree); None for -D"""
+        pp = _pp()
+        nodes = []
+        for i, m in enumerate(case["macros"]):
+            if is_D(m):
+                nodes.append(None)
+                continue
+            try:
+                node = pp.DirectiveParser(lex(define_text(m))).parse()
+            except Exception as e:  # noqa
+                return None, ["DefErr", i, type(e).__name__]
+            if not isinstance(node, pp.DefineNode):
+                return None, ["DefErr", i, "ParseError"]
+            nodes.append(node)
+        return nodes, None
+
+    def platform(self, case, nodes=None):
+        """a fresh Platform with the definitions of the case: DefineNode.evaluate_for_platform on the (possibly
+        shared, already evaluated) nodes, macro_from_definition_string for -D"""
         pp = _pp()
         from codebasin import platform
+        if nodes is None:
+            nodes, err = self.parse_defines(case)
+            if err:
+                return None, err
         plat = platform.Platform("verif", "/")
         for i, m in enumerate(case["macros"]):
             try:
@@ -548,10 +625,7 @@ class C03(Check):
                     macro = pp.macro_from_definition_string(dash_d_text(m))
                     plat.define(macro.name, macro)
                 else:
-                    node = pp.DirectiveParser(lex(define_text(m))).parse()
-                    if not isinstance(node, pp.DefineNode):
-                        return None, ["DefErr", i, "ParseError"]
-                    node.evaluate_for_platform(platform=plat)
+                    nodes[i].evaluate_for_platform(platform=plat)
             except Exception as e:  # noqa
                 return None, ["DefErr", i, type(e).__name__]
         return plat, None
@@ -577,16 +651,32 @@ class C03(Check):
         self._impl_cache[self.key(case)] = r
         return r
 
-    def _impl(self, case):
+    def _impl_once(self, case, nodes, toks):
         pp = _pp()
-        plat, err = self.platform(case)
+        plat, err = self.platform(case, nodes)
         if err:
             return err
         try:
-            out = pp.MacroExpander(plat).expand(lex(case["input"]))
+            out = pp.MacroExpander(plat).expand(toks)
         except Exception as e:  # noqa
             return ["Err", type(e).__name__]
         return ["Ok", [canon_tok(t) for t in out], [1 if t.prev_white else 0 for t in out]]
+
+    def _impl(self, case):
+        """HISTORY: a case with "history": n > 1 evaluates the SAME parsed directives (DefineNodes and the token
+        list of the controlling expression, as the cached source tree holds them) n times, each time for a fresh
+        Platform - what finder.find does for a second platform, a second translation unit including the same
+        header, or a second inclusion.  Every evaluation must give the same answer; the answer compared with M and
+        S is the last one."""
+        nodes, err = self.parse_defines(case)
+        if err:
+            return err
+        toks = lex(case["input"])
+        n = int(case.get("history", 1))
+        results = [self._impl_once(case, nodes, toks) for _ in range(max(1, n))]
+        if any(r != results[0] for r in results[1:]):
+            return ["HistoryDiffers", results[0], results[-1]]
+        return results[-1]
 
     LARGE = 300    # tokens; beyond this an expansion is outside what the model's fuel is sized for
 
@@ -775,7 +865,9 @@ class C03(Check):
         f = root / "main.c"
         f.write_text("\n".join(lines))
         cb = codebasin.CodeBase(root)
-        cfg = {"p": [{"file": str(f), "defines": defs, "include_paths": [], "include_files": []}]}
+        # two platforms over ONE parsed tree: the second evaluation must select the same branch
+        entry = {"file": str(f), "defines": defs, "include_paths": [], "include_files": []}
+        cfg = {"p": [dict(entry)], "p2": [dict(entry)]}
         state = finder.find(root, cb, cfg)
         tree = state.get_tree(str(f))
         assoc = state.get_map(str(f))
@@ -786,8 +878,12 @@ class C03(Check):
             if type(node).__name__ == "CodeNode":
                 if then_line in node.lines:
                     res["then"] = "p" in assoc[node]
+                    res["then2"] = "p2" in assoc[node]
                 if else_line in node.lines:
                     res["else"] = "p" in assoc[node]
+                    res["else2"] = "p2" in assoc[node]
+        if (res.get("then"), res.get("else")) != (res.get("then2"), res.get("else2")):
+            return ["HistoryDiffers", [res.get("then"), res.get("else")], [res.get("then2"), res.get("else2")]]
         return [res.get("then"), res.get("else")]
 
     @staticmethod
@@ -830,7 +926,8 @@ class C03(Check):
         limit = 40 if self.tier == "quick" else 400
         spec_of = {self.key(c): sa for c, sa in self._spec_log}
         per_stream = {}
-        streams = [("selfref", c) for c in getattr(self, "_selfref", [])] + [("ppaste", c) for c in getattr(self, "_ppaste", [])]
+        streams = [("selfref", c) for c in getattr(self, "_selfref", [])] + [("ppaste", c) for c in getattr(self, "_ppaste", [])] + \
+                  [("vcount", c) for c in getattr(self, "_vcount", [])]
         for stream, c in streams:
             if per_stream.get(stream, 0) >= limit:
                 continue
